@@ -224,6 +224,19 @@ fn valid_cell_twin(l: &Layout, f: usize, i: u32) -> bool {
     }
 }
 
+fn expected_tag(fd: &crate::layout::Field, bits: u128) -> u8 {
+    match fd.legal_values() {
+        Some(vs) => {
+            if vs.contains(&bits) {
+                TAG_OK
+            } else {
+                TAG_ERR
+            }
+        }
+        None => TAG_PLAIN,
+    }
+}
+
 fn valid_value(l: &Layout, f: usize, v: u128) -> bool {
     let fd = &l.fields[f];
     if v > mask(fd.value_width()) {
@@ -385,7 +398,7 @@ impl<'a> Ctx12<'a> {
                     continue;
                 }
                 for i in 0..fd.count() {
-                    let (bits, _tag) = obj.read(j, i as usize);
+                    let (bits, tag) = obj.read(j, i as usize);
                     let exp = model::read(want, fd, i);
                     self.st.getter_comparisons += 1;
                     if bits != exp {
@@ -398,6 +411,28 @@ impl<'a> Ctx12<'a> {
                             bits,
                             exp,
                             format!("getter {}({}) disagrees with the reference register (raw_value() agrees: {:#x})", fd.name, i, want),
+                        ));
+                    }
+                    // an Option<E> getter observes the state as Ok(variant) exactly when the bits
+                    // are a declared discriminant, and as Err(bits) otherwise
+                    let exp_tag = expected_tag(fd, exp);
+                    if tag != exp_tag {
+                        return Err(viol(
+                            "getter-mismatch",
+                            step,
+                            s,
+                            Some(j),
+                            Some(i),
+                            tag as u128,
+                            exp_tag as u128,
+                            format!(
+                                "getter {}({}) reports the bits {:#x} as {} but they {} a declared discriminant (observed/expected are the tags: 1 = Ok, 2 = Err)",
+                                fd.name,
+                                i,
+                                exp,
+                                if tag == TAG_OK { "Ok(variant)" } else { "Err(raw)" },
+                                if exp_tag == TAG_OK { "are" } else { "are not" }
+                            ),
                         ));
                     }
                 }
@@ -443,7 +478,14 @@ impl<'a> Ctx12<'a> {
                     stale[*slot] = None;
                 }
                 self.slots[*slot].as_mut().unwrap().set(*f, *i as usize, v.0);
-                let after = model::write(before, &l.fields[*f], *i, v.0);
+                let mut after = model::write(before, &l.fields[*f], *i, v.0);
+                if l.fields[*f].names_a_bit_twice() {
+                    // the bits of this element are whatever the real setter made of them; every
+                    // other bit must be untouched
+                    let m = l.fields[*f].bitmask(*i);
+                    let real = self.slots[*slot].as_ref().unwrap().raw();
+                    after = (before & !m) | (real & m);
+                }
                 if after != before {
                     self.st.state_changing_writes += 1;
                     self.st.probes[19] += 1;
@@ -473,7 +515,12 @@ impl<'a> Ctx12<'a> {
                 if r != before && !model_oracle_off() {
                     return Err(viol("receiver-modified", step, *src, Some(*f), Some(*i), r, before, "with_ changed its receiver".into()));
                 }
-                let after = model::write(before, &l.fields[*f], *i, v.0);
+                let mut after = model::write(before, &l.fields[*f], *i, v.0);
+                if l.fields[*f].names_a_bit_twice() {
+                    let m = l.fields[*f].bitmask(*i);
+                    let real = new.raw();
+                    after = (before & !m) | (real & m);
+                }
                 if after != before {
                     self.st.state_changing_writes += 1;
                     self.st.probes[19] += 1;
@@ -509,8 +556,11 @@ impl<'a> Ctx12<'a> {
                 if *slot >= self.slots.len() || self.slots[*slot].is_none() || !valid_cell(l, *f, *i, false) {
                     return Ok(Some("invalid".into()));
                 }
-                let (bits, _tag) = self.slots[*slot].as_ref().unwrap().read(*f, *i as usize);
+                let (bits, tag) = self.slots[*slot].as_ref().unwrap().read(*f, *i as usize);
                 let exp = model::read(self.model[*slot], &l.fields[*f], *i);
+                if bits == exp && tag != expected_tag(&l.fields[*f], exp) && !model_oracle_off() {
+                    return Err(viol("getter-mismatch", step, *slot, Some(*f), Some(*i), tag as u128, expected_tag(&l.fields[*f], exp) as u128, "explicit read: wrong Ok/Err for these bits".into()));
+                }
                 self.st.getter_comparisons += 1;
                 // probe: read through a field that overlaps the previously written one
                 if let Some((pf, pi)) = *prev_write {
